@@ -17,13 +17,14 @@
     `den (M.env G) σ' e σ` is the value of the expression `e` on the model (Y0/Spec/Sem.lean).
   * `G.Ranked` is acyclicity (a rank function increasing along directed edges); `TopoOrdered G topo`: no element of
     `topo` is a parent of an earlier one (Y0/Spec/TianSpec.lean).
-  * `ProbShape G.nodes q T`: when the given expression is a `Probability` it is `P_w(T | Z)` — see
+  * `ProbShape q T`: when the given expression is a `Probability` it is `P_w(T | Z)` — see
     Y0/Spec/TianSpec.lean for why the Lemma-1 branch (which dispatches on the TYPE of the expression and never reads
     its children) needs that; every other constructor carries no condition.
   * The preconditions "C ⊆ T", "T ⊆ topo", "G[T] is a single district" are CHECKED by the routine itself (it raises
     otherwise), so `tian_sound` does not need them as hypotheses: every expression it returns is right.
 -/
 import Y0.Lemmas.TianTotal
+import Y0.Lemmas.TianCallers
 import Y0.Lemmas.IdRank
 
 namespace Y0
@@ -54,7 +55,7 @@ topological listing `topo`, every `C`, `T` and every expression `q` that denotes
 theorem tian_sound (M : Scm) (G : MG Name) (hM : M.Compatible G) (hG : G.WF) (hrank : G.Ranked)
     (topo : List Name) (htnd : topo.Nodup) (hord : TopoOrdered G topo)
     (C T : List Name) (hCnd : C.Nodup) (hTnd : T.Nodup) (hT : ∀ t ∈ T, t ∈ G.nodes)
-    (q : Expr) (hshape : ProbShape G.nodes q T) (σ' : Val)
+    (q : Expr) (hshape : ProbShape q T) (σ' : Val)
     (hq : ∀ σ, den (M.env G) σ' q σ = M.Q T σ)
     (e : Expr) (h : identify G C T q topo = .ok (some e)) :
     ∀ σ, den (M.env G) σ' e σ = M.Q C σ := by
@@ -114,23 +115,73 @@ theorem tian_rejects_other_expressions (G : MG Name) (C T topo : List Name) (q :
 theorem tian_sound_acyclic (M : Scm) (G : MG Name) (hM : M.Compatible G) (hG : G.WF) (hac : G.Acyclic)
     (topo : List Name) (htnd : topo.Nodup) (hord : TopoOrdered G topo)
     (C T : List Name) (hCnd : C.Nodup) (hTnd : T.Nodup) (hT : ∀ t ∈ T, t ∈ G.nodes)
-    (q : Expr) (hshape : ProbShape G.nodes q T) (σ' : Val)
+    (q : Expr) (hshape : ProbShape q T) (σ' : Val)
     (hq : ∀ σ, den (M.env G) σ' q σ = M.Q T σ)
     (e : Expr) (h : identify G C T q topo = .ok (some e)) :
     ∀ σ, den (M.env G) σ' e σ = M.Q C σ :=
   tian_sound M G hM hG (MG.acyclic_ranked hG hac) topo htnd hord C T hCnd hTnd hT q hshape σ' hq e h
 
--- OPEN: `tian_sound` without the syntactic hypothesis `ProbShape`, with the semantic hypothesis quantified over all
--- models instead:
+/-! ## 1b. the shape hypothesis: where it comes from, and why y0's own caller satisfies it -/
+
+/-- **`compute_c_factor` establishes the shape.**  Whatever `compute_c_factor` returns for a district `D` satisfies
+`ProbShape … D` (Lemma 4 never returns a bare probability; Lemma 1 returns one only for a one-variable district,
+`P_w(v | Z ∪ pred(v))`).  So a c-factor obtained from `compute_c_factor` — the only way y0 obtains the `Q[T]` it
+passes to IDENTIFY — can be fed to `tian_sound` without further thought. -/
+theorem cfactor_output_shape (G : MG Name) (topo S D : List Name) (q e : Expr)
+    (hsub : ∀ v ∈ topo.filter (· ∈ S), v ∈ G.nodes)
+    (hDH : ∀ v ∈ D, v ∈ topo.filter (· ∈ S)) (hDnd : D.Nodup)
+    (hshape : ProbShape q (topo.filter (· ∈ S)))
+    (h : computeCFactor D S q topo = .ok e) : ProbShape e D :=
+  TianCallers.computeCFactor_probShape (G := G) hsub hDH hDnd hshape h D (List.Perm.refl D)
+
+/-- **C17 for the caller inside y0** (`transport_district_intervening_on_parents`, one domain of Algorithm 4 of
+Correa, Lee & Bareinboim 2022 — the only place y0 calls `tian_id.py`; model `CtfTr.sigmaTRDomain`):
+`Q[B] := compute_c_factor(B, V, P^k(V), topo)`, then `identify_district_variables(C, B, Q[B], G^k, topo)`.
+If the distribution `d.pop` given for the domain denotes `Q[V] = P^k(V)` (`V` the non-transport nodes, listed by
+`d.topo`) — with the shape hypothesis on THAT input only, e.g. the documented `PP[π^k](V)` — every expression the
+caller obtains denotes `Q[C]`.  No shape hypothesis on the intermediate `Q[B]` is needed: `cfactor_output_shape`. -/
+theorem tian_sound_ctftr_caller (M : Scm) (d : CtfTr.Domain) (hM : M.Compatible d.graph) (hG : d.graph.WF)
+    (hrank : d.graph.Ranked) (htnd : d.topo.Nodup) (hord : TopoOrdered d.graph d.topo)
+    (hreg : ∀ v ∈ d.topo, v ∈ CtfTr.regular d.graph)
+    (district : List Name) (σ' : Val)
+    (hshape : ProbShape d.pop (d.topo.filter (· ∈ CtfTr.regular d.graph)))
+    (hq : ∀ σ, den (M.env d.graph) σ' d.pop σ = M.Q (d.topo.filter (· ∈ CtfTr.regular d.graph)) σ)
+    (e : Expr) (h : CtfTr.sigmaTRDomain district d = .ok (some e)) :
+    ∀ σ, den (M.env d.graph) σ' e σ = M.Q (Trso.nsort district) σ := by
+  obtain ⟨B, q, hBnd, hBclosed, hcf, hid⟩ := TianCallers.sigmaTRDomain_inv hG h
+  obtain ⟨_, hBt, _⟩ := tian_checks _ _ _ _ _ _ hid
+  have hregn : ∀ v ∈ CtfTr.regular d.graph, v ∈ d.graph.nodes := fun v hv => (List.mem_filter.mp hv).1
+  have hsub : ∀ v ∈ d.topo.filter (· ∈ CtfTr.regular d.graph), v ∈ d.graph.nodes := fun v hv =>
+    hregn v (by simpa using (List.mem_filter.mp hv).2)
+  have hDH : ∀ v ∈ B, v ∈ d.topo.filter (· ∈ CtfTr.regular d.graph) := fun v hv =>
+    List.mem_filter.mpr ⟨hBt v hv, by simpa using hreg v (hBt v hv)⟩
+  have hqB : ∀ σ, den (M.env d.graph) σ' q σ = M.Q B σ :=
+    TianSound.computeCFactor_sound hM hG hrank σ' d.topo _ htnd hord hsub B hBnd hDH (hBclosed _) d.pop q hshape hq hcf
+  exact tian_sound M d.graph hM hG hrank d.topo htnd hord _ B (TianCallers.nsort_nodup _) hBnd
+    (fun t ht => hregn t (hreg t (hBt t ht))) q
+    (cfactor_output_shape d.graph d.topo _ B d.pop q hsub hDH hBnd hshape hcf) σ' hqB e hid
+
+-- OPEN: `tian_sound` with NO syntactic hypothesis on a bare `Probability`, the semantic hypothesis quantified over
+-- all models instead:
 --   theorem tian_sound_semantic (G) (hG : G.WF) (hrank : G.Ranked) (topo) (htnd) (hord) (C T) (hCnd) (hTnd) (hT)
 --       (q : Expr) (σ' : Val)
 --       (hq : ∀ M : Scm, M.Compatible G → ∀ σ, den (M.env G) σ' q σ = M.Q T σ)
 --       (e : Expr) (h : identify G C T q topo = .ok (some e)) :
 --       ∀ M : Scm, M.Compatible G → ∀ σ, den (M.env G) σ' e σ = M.Q C σ
--- It needs "a Probability that denotes Q[T] in EVERY compatible model has the shape P_w(T | Z)", which requires
--- constructing separating models and is not mechanised.  The hypothesis about a single model does not determine the
--- children of the probability (in a uniform model unrelated probabilities coincide with Q[T]), and the Lemma-1
--- branch never reads them, so the proof needs `ProbShape` or the all-models hypothesis.
+-- Status.  (1) `ProbShape` was weakened to what the proofs use: redundant children `P(T, W | Z)`, `W ⊆ Z ∪ w`, are
+-- allowed, parents and intervened variables need not be nodes of the graph, the spelling `-X` of a variable in event
+-- position is allowed (only `+X`, which reads the other assignment σ', is excluded).  (2) Every Q[T] that y0 itself produces
+-- satisfies it (section 1b), and IDENTIFY re-establishes it at every level of its recursion.  (3) No counterexample to
+-- the semantic statement is known, and the harness searches for one on every run: generator `semP` (harness/props/c17.py)
+-- enumerates EVERY single-world probability `P_w(T ∪ E | Z)` over small graphs, keeps those that denote Q[T] on the
+-- random models and checks the result of IDENTIFY by exact evaluation (none failed).  We believe the statement is true
+-- for `M.env G`: a conjunction across worlds has value 0 there (Y0/Spec/Scm.lean `prAtoms`) and Q[T] > 0, so q lives
+-- in one world w; comparing with the fair-coin model and with a model biased at one t ∈ T forces
+-- "child names ∖ (parent names ∪ w) = T" and no `+t` child, which is `ProbShape` up to starred parents / redundant
+-- starred children (`P(T | +z)`, harmless when it denotes Q[T] at all).  Mechanising those separating models
+-- (a compatible `Scm` for an arbitrary `G` with prescribed kernels, its `prDo` in closed form) and allowing `+z`
+-- outside `T` in `TianLemma1` is the remaining work.  A single-model hypothesis can never suffice: in a uniform model
+-- unrelated probabilities coincide with Q[T], and the Lemma-1 branch does not read the children outside `T`.
 -- `Sum` / `Product` / `Fraction` inputs are covered by `tian_sound` without any shape hypothesis.
 
 /-! ## 2. the c-factor routines -/
@@ -152,7 +203,7 @@ theorem cfactor_lemma1_sound (M : Scm) (G : MG Name) (hM : M.Compatible G) (hG :
     (H : List Name) (hnd : H.Nodup) (hsub : ∀ v ∈ H, v ∈ G.nodes) (htopo : TopoOrdered G H)
     (D : List Name) (hDnd : D.Nodup) (hDH : ∀ v ∈ D, v ∈ H) (hclosed : BiClosedIn G D H)
     (pop : Option Var) (ch pa : List Var) (e : Expr) (σ' : Val)
-    (hshape : ProbShape G.nodes (.prob pop ch pa) H)
+    (hshape : ProbShape (.prob pop ch pa) H)
     (hq : ∀ σ, den (M.env G) σ' (.prob pop ch pa) σ = M.Q H σ)
     (h : lemma1 D (.prob pop ch pa) H = .ok e) : ∀ σ, den (M.env G) σ' e σ = M.Q D σ :=
   TianSound.lemma1_sound hM hG hrank σ' H hnd hsub htopo D hDnd hDH hclosed pop ch pa e hshape hq h
@@ -164,7 +215,7 @@ theorem cfactor_sound (M : Scm) (G : MG Name) (hM : M.Compatible G) (hG : G.WF) 
     (hsub : ∀ v ∈ topo.filter (· ∈ S), v ∈ G.nodes)
     (D : List Name) (hDnd : D.Nodup) (hDH : ∀ v ∈ D, v ∈ topo.filter (· ∈ S))
     (hclosed : BiClosedIn G D (topo.filter (· ∈ S)))
-    (q e : Expr) (σ' : Val) (hshape : ProbShape G.nodes q (topo.filter (· ∈ S)))
+    (q e : Expr) (σ' : Val) (hshape : ProbShape q (topo.filter (· ∈ S)))
     (hq : ∀ σ, den (M.env G) σ' q σ = M.Q (topo.filter (· ∈ S)) σ)
     (h : computeCFactor D S q topo = .ok e) : ∀ σ, den (M.env G) σ' e σ = M.Q D σ :=
   TianSound.computeCFactor_sound hM hG hrank σ' topo S htnd hord hsub D hDnd hDH hclosed q e hshape hq h
@@ -225,8 +276,16 @@ example : identify g [0] [1, 2, 3] (.prob none [pl 1, pl 2, pl 3] [pl 0]) [0, 3,
     = .error (.invalidInput "KeyError") := by rfl
 
 /-- the shape hypothesis of `tian_sound` holds for the interventional input -/
-example : ProbShape g.nodes (.prob none [inZ 1, inZ 2, inZ 3] []) [1, 2, 3] :=
-  ⟨[⟨0, false⟩], by decide, by decide, by decide, by decide⟩
+example : ProbShape (.prob none [inZ 1, inZ 2, inZ 3] []) [1, 2, 3] :=
+  ⟨[⟨0, false⟩], by decide, by decide, by decide, by decide, by decide⟩
+
+/-- redundant children are inside the shape hypothesis: `P(A, B, D, Z | Z)` given as `Q[{A,B,D}]` -/
+example : ProbShape (.prob none [pl 1, pl 2, pl 3, pl 0] [pl 0]) [1, 2, 3] :=
+  ⟨[], by decide, by decide, by decide, by decide, by decide⟩
+
+/-- … and IDENTIFY ignores them -/
+example : identify g [2] [1, 2, 3] (.prob none [pl 1, pl 2, pl 3, pl 0] [pl 0]) [0, 3, 1, 2]
+    = .ok (some (.prob none [pl 2] [pl 0, pl 1])) := by rfl
 
 /-- the order used above is topological for `g` -/
 example : TopoOrdered g [0, 3, 1, 2] := by
@@ -272,6 +331,16 @@ example : ∃ r, identify g [2] [1, 2, 3] (.prob none [pl 1, pl 2, pl 3] [pl 0])
       rw [List.mem_singleton.mp h1, List.mem_singleton.mp h2]
       exact .refl)
     (Or.inr rfl)
+
+/-- the caller inside y0 (`tian_sound_ctftr_caller`): one domain with the graph `g`, no transport node, the
+distribution `P(V)`; the district `{B}` of the target -/
+def dom : CtfTr.Domain :=
+  { graph := g, topo := [0, 3, 1, 2], policy := [], pop := .prob none [pl 0, pl 3, pl 1, pl 2] [] }
+
+example : (CtfTr.sigmaTRDomain [2] dom).toOption.isSome = true := by decide
+example : ∀ v ∈ dom.topo, v ∈ CtfTr.regular dom.graph := by decide
+example : ProbShape dom.pop (dom.topo.filter (· ∈ CtfTr.regular dom.graph)) :=
+  ⟨[], by decide, by decide, by decide, by decide, by decide⟩
 
 /-- Lemma 4 on `Σ_D P(A,B,D | Z)`: the product of ratios for the district `{B}` of `G[{A,B}]` -/
 example : (lemma4 [2] (.sum (.prob none [pl 1, pl 2, pl 3] [pl 0]) [pl 3]) [1, 2]).toOption.isSome = true := by decide
